@@ -4,6 +4,7 @@
 mod c12;
 mod c13;
 mod c14;
+mod c15;
 mod util;
 
 use std::path::PathBuf;
@@ -24,6 +25,7 @@ fn main() {
     match prop {
         "c14" => c14::emit(&mut e, seed, thorough),
         "c12" => c12::emit(&mut e, seed, thorough),
+        "c15" => c15::emit(&mut e, seed, thorough),
         "c13" => c13::emit(&mut e, seed, thorough),
         _ => {
             eprintln!("unknown property {prop}");
